@@ -58,6 +58,16 @@ func c05Universe(kind string) []nBundle {
 		b2 := nFresh(2, nEid{7, 0}, nEid{3, 1})
 		b2.prev = nP(nEid{3, 0})
 		return []nBundle{b1, b2}
+	case "many":
+		// forty relayed bundles for the far destination, all of them waiting at once
+		var bs []nBundle
+		for k := 1; k <= 40; k++ {
+			b := nFresh(k, nEid{7, 0}, far)
+			b.seq = k
+			b.prev = nP(nEid{3, 0})
+			bs = append(bs, b)
+		}
+		return bs
 	case "refused":
 		// b1: hop limit reached; b2: unknown block demanding deletion; relayed clock-less bundle
 		b1 := nFresh(1, nEid{7, 0}, far)
@@ -451,6 +461,14 @@ func c05Sentinels(algos []struct {
 		// of real time apart: after 3 s it is still alive and must still be stored (an age that is accumulated
 		// wrongly from retry to retry would have expired it). Epidemic routing only (real time).
 		{"zero-short", "U1 S1 T T T T T T T T T", "slow"},
+	}
+	// forty bundles wait in the store when the first peer appears: every one of them is offered, however many wait
+	{
+		many := ""
+		for k := 1; k <= 40; k++ {
+			many += fmt.Sprintf("R%d ", k)
+		}
+		list = append(list, sent{"many", many + "U1 T T T", ""})
 	}
 	var out []*nHist
 	for _, a := range algos {
